@@ -144,3 +144,28 @@ pub fn contend(args: &[String]) {
         }
     }
 }
+
+/// C05 / F27: `deep <N> [thread]` decodes a derived recursive type (catalogue `List { head: i32, tail:
+/// Option<Box<List>> }`) from an input nested N levels deep, on the main thread or on a spawned thread with
+/// the default stack. The decoded value is leaked so that only the decoder's own recursion is measured. A stack
+/// overflow aborts the process (SIGABRT), which is what the caller observes.
+pub fn deep(args: &[String]) {
+    let n: usize = args[0].parse().unwrap();
+    let on_thread = args.get(1).map(|s| s == "thread").unwrap_or(false);
+    let mut bytes = Vec::with_capacity(6 * n + 6);
+    for _ in 0..n {
+        bytes.extend_from_slice(&[0, 0, 0, 0, 1, 1]);
+    }
+    bytes.extend_from_slice(&[0, 0, 0, 0, 1, 0]);
+    let run = move || {
+        let r = desert::deserialize::<crate::catalogue::List>(&bytes);
+        let s = match &r {
+            Ok(_) => "ok".to_string(),
+            Err(e) => format!("err {}", err_class(e)),
+        };
+        std::mem::forget(r);
+        s
+    };
+    let s = if on_thread { std::thread::spawn(run).join().unwrap() } else { run() };
+    println!("DEEP {n} {s}");
+}
